@@ -101,10 +101,11 @@ theorem dropTransport_conn (s : St) : (dropTransport s).conn = s.conn := by
 theorem wrongIdState_conn (s : St) : (wrongIdState s).conn = s.conn := by
   unfold wrongIdState; rw [dropTransport_conn]
 
-/-- the connector ends with `doneAuth` only on an authentication verdict, with `doneOk` only on success -/
+/-- the connector ends with `doneAuth` only on an authentication verdict, with `doneOk` only on a successful
+    pair-verify (`okLost` is a success that the accessory may undo by dropping the connection during set-up) -/
 theorem C10_verdict_classes (s : St) (v : Ver) :
     ((verifyVerdict s v).1.conn = .doneAuth → v = .auth ∨ s.conn = .doneAuth) ∧
-    ((verifyVerdict s v).1.conn = .doneOk → v = .ok ∨ s.conn = .doneOk) := by
+    ((verifyVerdict s v).1.conn = .doneOk → v = .ok ∨ v = .okLost ∨ s.conn = .doneOk) := by
   cases v with
   | ok => simp [verifyVerdict, (finish_fields _ _).1]
   | auth => simp [verifyVerdict, (finish_fields _ _).1]
@@ -112,6 +113,11 @@ theorem C10_verdict_classes (s : St) (v : Ver) :
   | hang =>
     simp only [verifyVerdict]
     split <;> simp [backoff, emit]
+  | okLost =>
+    simp only [verifyVerdict]
+    split
+    · simp [(finish_fields _ _).1]
+    · split <;> simp [backoff, emit]
   | wrongId =>
     simp only [verifyVerdict]
     split
@@ -130,6 +136,11 @@ theorem C10_continue_requires_progress (s : St) (v : Ver) (h : (verifyVerdict s 
   | auth => simp [verifyVerdict] at h
   | fail => simp [verifyVerdict] at h
   | hang => simp only [verifyVerdict] at h; split at h <;> simp at h
+  | okLost =>
+    simp only [verifyVerdict] at h
+    split at h
+    · simp at h
+    · split at h <;> simp at h
   | wrongId =>
     refine ⟨rfl, ?_⟩
     simp only [verifyVerdict] at h ⊢
